@@ -337,8 +337,8 @@ def gen_corpus(ck, rows):
     rng = ck.rng
     g = Gen(rng, rows)
     quick = ck.tier == "quick"
-    nbins = 8 if quick else 16
-    per_bin = 22 if quick else 60
+    nbins = 8 if quick else 32
+    per_bin = 40 if quick else 150
     bins = []
     leaves = list(g.leaves)
     ctors = list(g.ctors)
@@ -389,7 +389,7 @@ def gen_corpus(ck, rows):
         customs = [d for d in ds if d["derive"] == "custom"]
         objs = [d for d in ds if d["derive"] == "type" and d["body"] in ("struct", "unit")]
         errs = [d for d in ds if d["derive"] == "error"]
-        n_if = 1 if b["isolated"] else (6 if quick else 14)
+        n_if = 1 if b["isolated"] else (6 if quick else 20)
         for j in range(n_if):
             it = {"id": "%s.i%d" % (b["name"], j), "name": "org.example.%s.I%d" % (b["name"], j),
                   "docs": [x["text"] for x in g.docs(True) if "\t" not in x["text"]],
